@@ -1,11 +1,29 @@
 package sim
 
 import (
+	_ "embed"
+	"encoding/json"
 	"flag"
 	"fmt"
 	"os"
 	"strings"
 )
+
+// The catalogue's specs are frozen as data (catalog_specs.json, written by
+// `digsim gencat -freeze`): later changes to the seeded generator must not
+// renumber the declared functions, or replay files that name them would stop
+// replaying. catalog_gen.go is derived from this file at every build.
+//
+//go:embed catalog_specs.json
+var frozenCatalog []byte
+
+func FrozenCatalog() []Func {
+	var fs []Func
+	if err := json.Unmarshal(frozenCatalog, &fs); err != nil {
+		panic("catalog_specs.json: " + err.Error())
+	}
+	return fs
+}
 
 // The catalogue: declared Go functions generated from seeded specs. They are
 // needed wherever dig identifies a function by its code pointer (ProvideInfo.ID,
@@ -23,7 +41,7 @@ func CatalogSpecs(seed int64) []Func {
 	r := NewRng(mix64(seed, 0xca7a106))
 	g := &genCtx{r: r}
 	g.ft = Feat{NT: 6, Names: []string{"n1", "n2"}, Groups: []string{"g1", "g2"}, Objects: true, Optional: true, Soft: true,
-		Flatten: true, Variadic: true, PAvail: 0, PDup: 1, PErrFirst: 0.12, DecoIntroduce: true, GroupDecs: true, Decorators: true}
+		Flatten: true, Variadic: true, PVariadic: 0.1, PAvail: 0, PDup: 1, PErrFirst: 0.12, DecoIntroduce: true, GroupDecs: true, Decorators: true}
 	g.h = &History{}
 	g.m = NewModel(false)
 	var out []Func
@@ -169,8 +187,20 @@ func gencatMain(args []string) int {
 	fs := flag.NewFlagSet("gencat", flag.ExitOnError)
 	seed := fs.Int64("seed", 1, "")
 	out := fs.String("o", "catalog_gen.go", "")
+	freeze := fs.String("freeze", "", "write the specs drawn from -seed to this JSON file and stop")
 	fs.Parse(args)
-	specs := CatalogSpecs(*seed)
+	if *freeze != "" {
+		b, err := json.MarshalIndent(CatalogSpecs(*seed), "", " ")
+		if err == nil {
+			err = os.WriteFile(*freeze, append(b, '\n'), 0o644)
+		}
+		if err != nil {
+			fmt.Fprintln(os.Stderr, err)
+			return 2
+		}
+		return 0
+	}
+	specs := FrozenCatalog()
 	w := &catWriter{}
 	for i := range specs {
 		w.fn(&specs[i])
